@@ -286,10 +286,15 @@ func CheckCase(c Case) *ev.Violation {
 		defer func() {
 			// between two renders of the long-lived wrapper somebody else walks the table too: another renderer, or a bare callback pass
 			if foreign != nil {
-				if k%2 == 0 {
+				switch k % 4 {
+				case 0:
 					csv.Wrap(foreign).RenderTo(io.Discard)
-				} else {
+				case 1:
 					foreign.InvokeRenderCallbacks()
+				case 2:
+					texttable.RenderTo(foreign, io.Discard) // a one-shot wrapper of the package-level helper comes and goes
+				default:
+					markdown.RenderTo(foreign, io.Discard)
 				}
 			}
 		}()
